@@ -213,7 +213,16 @@ def load_known(prop):
         return []
     with open(p) as f:
         data = json.load(f)
-    return [e for e in data.get('findings', []) if e.get('property') == prop and e.get('status') == 'open']
+    out = [e for e in data.get('findings', []) if e.get('property') == prop and e.get('status') == 'open']
+    for e in out:
+        # an entry may list the exact failing inputs (one signature per line) in a committed file
+        if 'signature_file' in e and '_signature_set' not in e:
+            try:
+                with open(os.path.join(ROOT, e['signature_file'])) as f:
+                    e['_signature_set'] = set(l.rstrip('\n') for l in f if l.strip())
+            except Exception:
+                e['_signature_set'] = set()
+    return out
 
 
 def sample3(seq):
@@ -235,6 +244,11 @@ def finish(prop, tier, level, coverage, violations, t0, assumptions=(), max_repo
                 hit = e
                 break
             if 'signature_regex' in e and re.search(e['signature_regex'], v.signature, re.S):
+                if '_signature_set' in e and v.signature not in e['_signature_set']:
+                    continue
+                hit = e
+                break
+            if 'signature_regex' not in e and '_signature_set' in e and v.signature in e['_signature_set']:
                 hit = e
                 break
         if hit is not None:
